@@ -132,6 +132,16 @@ def _reg_unit_names():
     return ["dbl_off", "dbl_on"] if C.tier() == "thorough" else ["dbl_off"]
 
 
+def _stateless(chk, extra_units=()):
+    """A necessary condition of every value property: results are functions of the operands only - library code
+    keeps no static/thread-local mutable state and no mutable members (a cache would make results history-dependent)."""
+    from . import r_own, controls
+    units = _lib_units(["cases_off"] + list(extra_units))
+    r_own.statics(chk, units)
+    r_own.const_correctness(chk, units)
+    controls.require(chk, ["R-EFF.static", "R-OWN.mutable", "R-OWN.cast"])
+
+
 def C02():
     from . import r_reg
     chk = Check("C02", "other",
@@ -141,6 +151,7 @@ def C02():
                 "coefficients of ONE interval containing x and that interval's two end points. The Horner "
                 "arithmetic itself is not decided.")
     chk.trust(*REG_TRUST)
+    _stateless(chk)   # first: a later engine leaving the fragment must not hide it
     chk.assume(*REG_ASSUME)
     nmax = 7 if C.tier() == "thorough" else 5
     total = 0
@@ -192,6 +203,7 @@ def C03():
                 "and power the pointwise operation prescribes, be the constant zero elsewhere, leave operands "
                 "unchanged and yield a valid spline. Signs and numeric values are not decided.")
     chk.trust(*REG_TRUST)
+    _stateless(chk)   # first: a later engine leaving the fragment must not hide it
     chk.assume(*REG_ASSUME)
     nmax = 6 if C.tier() == "thorough" else 4
     pairs = ((1, 1), (2, 1), (1, 2), (0, 2), (3, 0), (2, 2), (0, 0), (3, 3)) if C.tier() == "thorough" else \
@@ -263,6 +275,7 @@ def C04():
                 "interval's two end points; exactly zero where n exceeds the degree. Falling-factorial and binomial "
                 "values are not decided.")
     chk.trust(*REG_TRUST)
+    _stateless(chk)   # first: a later engine leaving the fragment must not hide it
     chk.assume(*REG_ASSUME)
     nmax = 6 if C.tier() == "thorough" else 4
     total = 0
@@ -289,6 +302,7 @@ def C05():
                 "expression prescribes; a spline factor acts as zero outside its own intervals. Signs, operator "
                 "order inside one dependence class and numeric values are not decided.")
     chk.trust(*REG_TRUST)
+    _stateless(chk)   # first: a later engine leaving the fragment must not hide it
     chk.assume(*REG_ASSUME)
     nmax = 5 if C.tier() == "thorough" else 4
     total = 0
@@ -296,6 +310,7 @@ def C05():
         u = F.load(n)
         chk.units.append(n)
         total += r_reg.run_jobs(chk, u, "R-REG.op", _ops_jobs("operator_suite", nmax))
+        total += r_reg.run_jobs(chk, u, "R-REG.const", [("bsv.r_reg_ops", "constant_table_suite", dict(nmax=9))])
     chk.note("regions_evaluated", total)
     chk.note("grid_size_bound", nmax)
     chk.exhaustive = True
@@ -318,6 +333,7 @@ def C06():
                 "interval's width, and be exactly zero when no interval is shared. The Horner kernel's numeric "
                 "result is not decided.")
     chk.trust(*REG_TRUST)
+    _stateless(chk)   # first: a later engine leaving the fragment must not hide it
     chk.assume(*REG_ASSUME)
     nmax = 5 if C.tier() == "thorough" else 4
     total = 0
@@ -327,7 +343,7 @@ def C06():
         total += r_reg.run_jobs(chk, u, "R-REG.bf", _ops_jobs("bilinear_suite", nmax))
     chk.note("regions_evaluated", total)
     chk.exhaustive = True
-    chk.floor("R-REG.bf", chk.rules["R-REG.bf"]["instances"], 5, "bilinear-form cases")
+    chk.floor("R-REG.bf", chk.rules["R-REG.bf"]["instances"], 6, "bilinear-form cases")
     return chk
 
 
@@ -340,6 +356,7 @@ def C07():
                 "interval's width; exactly zero for an interval-free spline. Agreement with the bilinear form's "
                 "numeric value is not decided.")
     chk.trust(*REG_TRUST)
+    _stateless(chk)   # first: a later engine leaving the fragment must not hide it
     chk.assume(*REG_ASSUME)
     nmax = 6 if C.tier() == "thorough" else 4
     total = 0
@@ -362,6 +379,7 @@ def C17():
                 "there is none. Gauss-Legendre exactness and rounding are not decided (Boost's rule is modelled as "
                 "'value built from the integrand inside [a,b]').")
     chk.trust(*REG_TRUST)
+    _stateless(chk)   # first: a later engine leaving the fragment must not hide it
     chk.assume(*REG_ASSUME)
     nmax = 6 if C.tier() == "thorough" else 4
     total = 0
@@ -493,6 +511,7 @@ def C09():
     r_small.r_opt(chk, units)
     r_own.field_types(chk, units)
     r_own.lifetimes(chk, units + _example_units())
+    r_inv.grid_move(chk, units)
     chk.floor("R-REG.ub", chk.rules["R-REG.ub"]["instances"], 120, "(function, clause) obligations")
     chk.floor("R-OPT", chk.rules["R-OPT"]["instances"], 8, "optional dereference sites")
     from . import controls
